@@ -159,7 +159,7 @@ pub fn gen_plain(dna: &mut Dna, size_weights: &[u32; 4]) -> Vec<u8> {
 
 pub fn gen_plain_sized(dna: &mut Dna, target: usize) -> Vec<u8> {
     let mut out = Vec::with_capacity(target);
-    // flavour: which segment kinds are allowed (bitmask), from DNA; 0 -> all
+    // flavour: which segment kinds are allowed; 0 -> all
     let flavour = dna.weighted(&[30, 25, 15, 10, 10, 10]);
     let kinds: &[usize] = match flavour {
         0 => &[0, 1, 2, 3, 4, 5, 6, 7],
@@ -169,23 +169,22 @@ pub fn gen_plain_sized(dna: &mut Dna, target: usize) -> Vec<u8> {
         4 => &[6, 3, 7],          // tiny alphabets
         _ => &[0, 2, 3, 3, 7, 7], // mixed binary
     };
-    let mut guard = 0;
-    while out.len() < target && guard < 100_000 {
-        guard += 1;
-        // each segment: one DNA byte picks the kind, 8 DNA bytes the sub-seed
-        let kind = kinds[dna.below(kinds.len())];
+    // DNA economy (DESIGN.md A.1): at most 8 DNA-described parts, each (kind, 64-bit
+    // sub-seed); inside a part the expander picks the segment kinds of the flavour.
+    let nparts = dna.range(1, 8);
+    for part in 0..nparts {
+        let part_target = target * (part + 1) / nparts;
+        let first_kind = kinds[dna.below(kinds.len())];
         let seed = dna.u64();
-        let mut mix = Mix::new(seed ^ (out.len() as u64).wrapping_mul(0x9E37));
-        if dna.exhausted() {
-            // DNA used up: fill the remainder from one expander so that sizes are honoured
-            let mut m2 = Mix::new(seed.wrapping_add(guard));
-            while out.len() < target {
-                let k = kinds[m2.below(kinds.len())];
-                append_segment(&mut out, target, k, &mut m2);
-            }
-            break;
+        let mut mix = Mix::new(seed ^ (part as u64).wrapping_mul(0x9E37_79B9));
+        let mut first = true;
+        let mut guard = 0;
+        while out.len() < part_target && guard < 100_000 {
+            guard += 1;
+            let k = if first { first_kind } else { kinds[mix.below(kinds.len())] };
+            first = false;
+            append_segment(&mut out, part_target, k, &mut mix);
         }
-        append_segment(&mut out, target, kind, &mut mix);
     }
     out.truncate(target);
     out
